@@ -330,6 +330,23 @@ def special_population_case(case):
         for a in agents:
             env.add_agent(a)
         tmpls = TEMPLATES
+    elif case['how'] == 'odd_agents':
+        # members whose class has its own notion of length: nested environments (length = number of inhabitants) and an
+        # agent class defining __len__; what they match is decided by the components they carry, like for anyone else
+        class Bag(Core.Agent):
+            def __len__(self):
+                return 0
+        env = m.environment
+        empty_sub = Core.Environment(m, 'sub0')
+        one_sub = Core.Environment(m, 'sub1')
+        one_sub.add_agent(Core.Agent('inner', m))
+        agents = [Core.Agent('p', m, tag=1), empty_sub, one_sub, Bag('bag', m, tag=1), Core.Agent('q', m)]
+        for a, ts in zip(agents, ('X', 'XY', 'XYZ', 'X', 'Y')):
+            for t in ts:
+                a.add_component(TYPES[t](a, m))
+        for a in agents:
+            env.add_agent(a)
+        tmpls = TEMPLATES
     else:
         env = m.environment = (Envs.GridWorld(m, 3, 3) if case['how'] == 'grid_unpositioned' else
                                Envs.SpaceWorld(m, 3.0, 3.0, 0))
@@ -592,7 +609,7 @@ def run(ctx):
             ctx.report(case, v)
             return
     ctx.leg('class_churn_and_detached_env', cases=len(extra))
-    for how in ('class_component', 'grid_unpositioned', 'space_unpositioned'):
+    for how in ('class_component', 'odd_agents', 'grid_unpositioned', 'space_unpositioned'):
         case = {'leg': 'special_population', 'how': how}
         ctx.traces += 1
         try:
@@ -601,7 +618,7 @@ def run(ctx):
         except Violation as v:
             ctx.report(case, v)
             return
-    ctx.leg('special_population', cases=3)
+    ctx.leg('special_population', cases=4)
     case = {'leg': 'crowd', 'n': 130 if ctx.small else 1300, 'seed': ctx.seed}
     ctx.traces += 1
     try:
